@@ -39,7 +39,7 @@ ASSUMPTIONS = [
     "Adapters are assumed not to buffer writes: the clause S_W_Exact demands that the inner stream has accepted exactly "
     "the first n offered bytes when poll_write returns n (true of every adapter in scope).",
     "TCP / Unix socket stacks: only data-dependent clauses (prefix of the FIFO, EOF only after shutdown with everything "
-    "delivered, final drain reaches EOF within 5 s); no timing assertions; Pending is always allowed there.",
+    "delivered, final drain reaches EOF within 3 s of real time); no timing assertions; Pending is always allowed there.",
     "TLS record layers (client/server TlsStream over rustls) are outside C18's scripted stacks: only the TlsBraid "
     "dispatch (both arms, with a scripted stream in the Tls arm) is driven; the TLS data path is covered by C12/C01.",
     "Byte numbers are < 240 per direction and sequence (numbers are their own u8 value).",
